@@ -377,9 +377,10 @@ func runSwitch(c Case) (res obs.Result) {
 	}
 	switch variant {
 	case 0:
-		wait(func() bool { m, _, _, _, _ := rueidis.VerifRouteSentinelState(cli); return m == n2 }, 10*time.Second)
+		// Nodes() reads mConn itself (mAddr is stored a moment before the connection is swapped)
+		wait(func() bool { _, ok := cli.Nodes()[n2]; return ok }, 60*time.Second)
 	case 2:
-		wait(func() bool { return len(d.Roles()) > rolesBefore+1 }, 10*time.Second)
+		wait(func() bool { return len(d.Roles()) > rolesBefore+1 }, 30*time.Second)
 		time.Sleep(50 * time.Millisecond)
 	default:
 		time.Sleep(150 * time.Millisecond)
